@@ -1,8 +1,8 @@
 // C12 (send side): what follows a reset. A SendStream that has used `sent` bytes of its windows
 // (two transmission attempts of arbitrary reach, optionally a MAX_STREAM_DATA in between; possibly
 // blocked on its stream window with a STREAM_DATA_BLOCKED pending) is reset -
-// by the peer's STOP_SENDING or internally - and then asked to transmit, twice, with a loss in between:
-//  * STOP_SENDING: exactly one RESET_STREAM is written, its final size is >= everything the stream
+// by the peer's STOP_SENDING, by the local application (poll_request) or internally - and then asked to transmit, twice, with a loss in between:
+//  * STOP_SENDING / application reset: exactly one RESET_STREAM is written, its final size is >= everything the stream
 //    can have sent and within the peer's MAX_STREAM_DATA and MAX_DATA, no STREAM
 //    and no STREAM_DATA_BLOCKED frame accompanies or follows it; after a loss the SAME frame is
 //    written again (the announced final size never changes); after its ACK nothing more.
@@ -74,9 +74,16 @@ fn verif_send_stream_after_reset() {
     let code: u8 = kani::any();
     if internal {
         s.on_internal_reset(StreamError::invalid_stream(), &mut events);
-    } else {
+    } else if kani::any() {
         let frame = StopSending { stream_id: id.into(), application_error_code: VarInt::from_u8(code) };
         assert!(s.on_stop_sending(&frame, &mut events).is_ok());
+    } else {
+        // the local application resets the stream through the stream API
+        let mut request = s2n_quic_core::stream::ops::tx::Request::default();
+        request.reset = Some(VarInt::from_u8(code).into());
+        let response = s.poll_request(&mut request, None);
+        assert!(response.is_ok());
+        kani::cover!(true, "application reset");
     }
     let mut ctx = crate::verif_support::StubCtx::new(64);
     assert!(s.on_transmit(id, &mut ctx).is_ok());
